@@ -28,6 +28,21 @@ CLAIMS = {
         design_ref="DESIGN.md §3 C08",
         note="The arithmetic clause (checksum::data equals the RFC 1071 sum for every length/alignment/content) quantifies over values and is NOT decided (no static argument without a solver). Trusted base as C17.",
         technique="static analysis: ordering/pairing and guard must-pass-through over rustc MIR"),
+    'C01': dict(
+        text="Structural clauses of the TCP receive/transmit paths decided on the MIR: a FIN is consumed only behind the no-hole and not-cut-at-the-right-edge guards (value-split abstract interpretation on the quashed control variable, product-graph cut); one placement (same offset/size into assembler and rx ring; enqueue = what the assembler reports); trimmed slice and offset have the max/min window shape; tx payload offset = SEG.SEQ - SND.UNA on both dispatch paths; ACK = RCV.NXT; sequence numbers ordered only through the wrapping comparison; reset() re-initialises every connection-scoped field; ingress parsers get the device's checksum caps.",
+        design_ref="DESIGN.md §3 C01",
+        note="Decides necessary structural conditions, not stream equality under all fault schedules (not decidable statically here). Trusted base as C17.",
+        technique="static analysis: origin-tree value-shape rules + guard must-pass-through with value-split abstract interpretation over rustc MIR"),
+    'C04': dict(
+        text="Value-origin and who-may-write rules on tcp::Socket::process/dispatch/ack_reply: ACK number is RCV.NXT; accepted slice = payload[max(RCV.NXT,SEG.SEQ)-SEG.SEQ .. min(window_end,SEG.END)-SEG.SEQ] with window_end = last ack + (last window << shift); placement offset max(..)-RCV.NXT identical for assembler and ring; FIN guards (R01.1); writers and stored values of remote_seq_no; recorded advertised edge = emitted fields.",
+        design_ref="DESIGN.md §3 C04",
+        note="Exactly-once delivery over all segment histories is not decided. Trusted base as C17.",
+        technique="static analysis: origin-tree pattern matching (value-shape), who-may-write, guard must-pass-through over rustc MIR"),
+    'C05': dict(
+        text="Every tx_buffer.get_allocated size in dispatch is a min-chain containing the peer-window limit and the effective MSS (and cwnd on the normal path); remote_mss only stored through the MIN_REMOTE_MSS clamp or DEFAULT_MSS; SYN window unscaled / others scaled; FIN only behind offset+len == tx_buffer.len(); payload only ever a view of the tx ring; tx ring consumed only by ACK processing and reset; seq/offset pairing (R01.3); reset() restores remote_mss.",
+        design_ref="DESIGN.md §3 C05",
+        note="Numeric bounds of every segment over all runs are not decided. Trusted base as C17.",
+        technique="static analysis: origin-tree min-chain / leaf-set rules and guard must-pass-through over rustc MIR"),
 }
 
 NOT_YET = "structural rules for this property are not built yet in this revision; no static claim is made"
